@@ -397,3 +397,20 @@ pub fn run(o: Oracle, tier: Tier, seed: u64) -> i32 {
     }
     report.finish()
 }
+
+/// Replay of one recorded login case under the oracle of the property that reported it.
+pub fn replay(o: Oracle, report: &Report, r: &serde_json::Value) {
+    let c = &r["case"];
+    let g = |v: &serde_json::Value| v.as_str().unwrap_or_else(|| mc::util::machinery_error("login replay: field missing")).to_string();
+    let case = Case {
+        layer: "replay",
+        reg_user: g(&c["registered"][0]),
+        reg_pass: g(&c["registered"][1]),
+        typed_user: g(&c["typed"][0]),
+        typed_pass: g(&c["typed"][1]),
+        salt: mc::util::unhex_n::<32>(&g(&c["salt"])),
+        b: mc::util::unhex_n::<32>(&g(&c["b"])),
+        a: mc::util::unhex_n::<32>(&g(&c["a"])),
+    };
+    run_case(report, o, &Classes::new(), &case, true, true);
+}
